@@ -15,11 +15,14 @@ GEN_TIES = {'Threshold': 'Props/GenTie_Threshold.v', 'Approval': 'Props/GenTie_A
 TIE = {'threshold.py AbsoluteThreshold / RelativeThreshold evaluate (acceptance predicate and whole body), AlternativeThresholds (union)':
            'translator (Gen/Threshold.v regenerated on every run; Props/GenTie_Threshold.v proves it equal to passes / sel_eval of '
            'Model/Threshold.v) + correspondence',
-       'threshold.py bracketers, order of AlternativeThresholds': 'correspondence',
+       'threshold.py CoalitionMemberBracketer.evaluate (whole body: member-count table, dispatch with default, membership filter)':
+           'translator (Gen/Threshold.v; GenTie_Threshold.v tie_coalition_evaluate: = bracket_eval for a votes dictionary) + correspondence',
+       'threshold.py PropertyBracketer (caching loop with hasattr / getattr), order of AlternativeThresholds': 'correspondence',
        'approval.QuotaSelector quota comparison and over-quota dictionary': 'translator (Gen/Approval.v, Props/GenTie_Approval.v: = fulfills / '
            'the filter of qsel_evaluate) + correspondence (quota-selector stream: C09 model unit, votes placed on the quota)',
-       'openlist.ThresholdOpenList jump test (the jumping comprehension)': 'translator (Gen/Openlist.v, Props/GenTie_Openlist.v: = ol_jumping) + correspondence',
-       'openlist.ThresholdOpenList threshold / fill-up, ListOrderTieBreaker / Tie.break_by_list': 'correspondence',
+       'openlist.ThresholdOpenList jump threshold (fraction of the total, quota, max / min) and jump test (the jumping comprehension)':
+           'translator (Gen/Openlist.v, Props/GenTie_Openlist.v: = ol_threshold / ol_jumping) + correspondence',
+       'openlist.ThresholdOpenList constructor (quota_fraction wrapper), cut to n seats / list precedence / fill-up, ListOrderTieBreaker / Tie.break_by_list': 'correspondence',
        'component/quota.py': 'translator (C02)'}
 RULE = ('corpus; threshold stream: Abs/Rel/Alternative (nested) with thresholds as Fraction/Decimal/int, vote totals built so that '
         'one candidate sits exactly on every threshold (e.g. 5 of 100 at 5 %), accept_equal both ways; bracketers by coalition size '
